@@ -736,6 +736,7 @@ def run(prog, run):
     run.extra['first_element_sites'] = rule_first_of_nonempty(prog, run, r10)
     rule_listener_moves_out(prog, run)
     rule_saved_markup(prog, run)
+    rule_offset_no_wrap(prog, run)
 
     r5 = run.rule('C02.R5', 'parsers terminate on sibling lists: every loop guarded by isNull() of a local DOM node advances that node on every path back to '
                             'the loop head (continue included)', floor=18)
@@ -987,3 +988,19 @@ def rule_saved_markup(prog, run):
             run.ok(rid, f.loc(saves[0][0]), 'saved DOM text is not cut by tag literals')
     if not n:
         raise AnalysisBroken('C02.R12: no parser saves DOM nodes into a string any more (QXmppMessage::parseExtension, XHTML-IM expected)')
+
+
+# --------------------------------------------------------------------------- R13: offsets are not formatted through a clock type
+def rule_offset_no_wrap(prog, run):
+    rid = run.rule('C02.R13', 'the timezone offset (seconds, parsed from up to 99:59) is not formatted through QTime: QTime arithmetic wraps at 24 hours, so a received "+24:00" would be '
+                              'written as "+00:00" and read back as "Z" - one parse/serialize pass would not be a fix-point', floor=1)
+    f = prog.fn('QXmppUtils::timezoneOffsetToString')
+    run.instance(rid)
+    bad = [i for i, n in f.calls() if (f.cname(n) or '').startswith('QTime::') and (f.cname(n) or '').split('::')[-1] in ('addSecs', 'addMSecs', 'fromMSecsSinceStartOfDay', 'toString')] + \
+          [i for i, n in f.all_nodes('construct') if (n.get('cls') or '') == 'QTime' and n.get('args')]
+    if bad:
+        run.violation(rid, 'timezoneOffsetToString#formats-through-QTime', f.loc(bad[0]),
+                      'timezoneOffsetToString formats the offset through QTime (%s): offsets of 24 hours and more wrap, the written value differs from the parsed one and the '
+                      'next pass changes it again' % f.fmt(bad[0], inline=False)[:50])
+    else:
+        run.ok(rid, f.loc(), 'hours and minutes are computed arithmetically')
